@@ -2,6 +2,9 @@
 From Coq Require Import String List QArith Qabs Bool Arith.
 Import ListNotations.
 From LV Require Import Base.ListAux Goose.MM.
+(* the C12 source tie library (tools/py2gallina_c12.py, harness/lv/c12_tie.py): required, not imported, so that the
+   targeted build of this file compiles it *)
+From LV Require Goose.GenC12Tie.
 Open Scope Q_scope.
 
 Record mcase := mkCase {
